@@ -952,6 +952,20 @@ func symOps(keys []K, set bool) []op {
 	return ops
 }
 
+// opsNamed keeps the operations whose name starts with one of the prefixes.
+func opsNamed(all []op, prefixes ...string) []op {
+	var out []op
+	for _, o := range all {
+		for _, p := range prefixes {
+			if strings.HasPrefix(o.name, p) {
+				out = append(out, o)
+				break
+			}
+		}
+	}
+	return out
+}
+
 func configs(tier string) []*config {
 	thorough := tier == "thorough"
 	// A: 5 keys: 3 share one hash, one hashes to 0 (stored as 1), one hashes to 1.
@@ -980,18 +994,19 @@ func configs(tier string) []*config {
 		}
 		keysE = append(keysE, K{i, 0x50})
 	}
-	depthD, depthE := 7, 5
+	depthD, depthE := 10, 8
 	if thorough {
-		depthD, depthE = 10, 8
+		depthD, depthE = 13, 11
 	}
 	// G: two hash classes that share a bucket while the table has one or two buckets and part when it has four
 	var keysG []K
 	for i := 0; i < 20; i++ {
 		keysG = append(keysG, K{i, []uint32{0x50, 0x52}[i%2]})
 	}
-	depthG := 11
+	// (growth happens at 9 and at 14 entries; the alphabet is insert-heavy so that depth 16 is affordable)
+	depthG := 15
 	if thorough {
-		depthG = 15
+		depthG = 18
 	}
 	cs := []*config{
 		{name: "A-dict", keys: keysA, ops: dictOpsFor(keysA, othersA), vals: thorough},
@@ -1003,7 +1018,7 @@ func configs(tier string) []*config {
 		{name: "D-dict-sym-from-16-in-one-chain", keys: keysD, sym: true, prefill: 16, ops: symOps(keysD, false), maxDepth: depthD},
 		{name: "D-set-sym-from-16-in-one-chain", set: true, keys: keysD, sym: true, prefill: 16, ops: symOps(keysD, true), maxDepth: depthD},
 		{name: "E-dict-sym-from-24-in-one-chain", keys: keysE, sym: true, prefill: 24, ops: symOps(keysE, false), maxDepth: depthE},
-		{name: "G-dict-sym-two-hash-classes", keys: keysG, sym: true, ops: symOps(keysG, false), maxDepth: depthG},
+		{name: "G-dict-sym-two-hash-classes", keys: keysG, sym: true, ops: opsNamed(symOps(keysG, false), "insert-fresh", "delete-last", "update-first"), maxDepth: depthG},
 	}
 	return cs
 }
